@@ -751,7 +751,7 @@ theorem lib_sound {C d o c h a} {sc sc1 : Sc} {begin : Ev} {closing : St} {ans :
 
 /-! ### the interpreter -/
 
-/-- the checked tree admits the selected leaf, with a path condition the byte satisfies -/
+/-- the checked tree accepts the selected leaf, with a path condition the byte satisfies -/
 theorem aCode_select {C : Certs} {run : St → AbsVal → Bool} {c : UInt8} (ev : Cond → Bool) :
     ∀ (code : Code St) (a : AbsVal), aCode C run a code = true → a.P.Sat c →
     ∃ P a', P.Sat c ∧ aOps C { a with P := P } (code.select c ev).1 = some a' ∧
